@@ -295,9 +295,19 @@ impl Property for P {
     fn strategy(tier: Tier) -> BoxedStrategy<Case> {
         let mut og = OptGen::full();
         og.algos = gen::AlgoSet::Any;
-        (gen::any_text(Mix::FULL, tier), gen::optspec(og), any::<bool>())
-            .prop_map(|(text, spec, by_ref)| Case { text, spec, by_ref })
-            .boxed()
+        let normal = (gen::any_text(Mix::FULL, tier), gen::optspec(og.clone()), any::<bool>())
+            .prop_map(|(text, spec, by_ref)| Case { text, spec, by_ref });
+        // texts on a logarithmic size scale with a width relative to the text
+        let scaled = (
+            gen::scaled_text_and_width(Mix::FULL, 1500),
+            gen::optspec(og),
+            any::<bool>(),
+        )
+            .prop_map(|((text, w), mut spec, by_ref)| {
+                spec.width = w;
+                Case { text, spec, by_ref }
+            });
+        prop_oneof![66 => normal, 1 => scaled].boxed()
     }
     fn check(c: &Case, _m: Mode) -> Outcome {
         check(c)
